@@ -57,7 +57,15 @@ def run(prog, rep):
     cacheproto.check_read_guard(prog, rep, "C04-R3", en)
     rep.floor("C04-R3", 4)
     cacheproto.check_renaming_on_hit(prog, rep, "C04-R4", en)
-    rep.floor("C04-R4", 1)
+    # the renaming of a cached set is done by substitute_hctl_var: that primitive must rename (shared with C03-R3 / C08-R4)
+    import lowlevel
+    sub = type(rep)("C04s")
+    lowlevel.check_primitives(prog, sub, "C04-R4")
+    for i in sub.instances:
+        if i.key.split(":", 1)[-1] == "substitute_hctl_var":
+            (rep.ok if i.verdict == "ok" else rep.violation if i.verdict == "violation" else rep.unresolved)("C04-R4", i.key.split(":", 1)[1], i.where, i.detail)
+    rep.functions |= sub.functions
+    rep.floor("C04-R4", 2)
     check_batch_threading(prog, rep, "C04-R6")
     rep.floor("C04-R6", 6)
     check_hash_iteration(prog, rep, "C04-R7")
